@@ -9,7 +9,7 @@ import argparse, json, os, shutil, subprocess, sys
 VERIF = os.path.dirname(os.path.dirname(os.path.abspath(__file__)))
 
 def sh(cmd, cwd=None, timeout=1800):
-    r = subprocess.run(cmd, shell=True, cwd=cwd, capture_output=True, text=True, timeout=timeout)
+    r = subprocess.run(cmd, shell=True, cwd=cwd, capture_output=True, text=True, errors="replace", timeout=timeout)
     return r.returncode, (r.stdout + r.stderr)
 
 def main():
